@@ -1,25 +1,26 @@
 #!/bin/bash
-# tools/seed_sweep.sh [seed…] : run every property's check against its seeded defect (seeded/<id>/patch.diff applied to a
-# scratch copy of /repo's working tree) at the given VERIF_SEED values; prints one line per run.  Nothing in /repo or in
-# /verif/evidence is touched; scratch copies live under $TMPDIR and are removed.
+# tools/seed_sweep.sh [-d "dir…"] [seed…] : run every property's check against its seeded defects (seeded/<id>[.rN]/patch.diff
+# applied to a scratch copy of /repo's working tree) at the given VERIF_SEED values; prints one line per run.  Nothing in
+# /repo or in /verif/evidence is touched; scratch copies live under $TMPDIR and are removed.
+DIRS=$(ls /verif/seeded)
+if [ "$1" = "-d" ]; then DIRS=$2; shift 2; fi
 SEEDS=${*:-1}
 T=${TMPDIR:-/tmp}/seed_sweep.$$
 mkdir -p $T
 one() {
-  P=$1; S=$2; D=$T/$P
+  D0=$1; S=$2; P=${D0%%.*}; D=$T/$D0
   if [ ! -d $D ]; then
     mkdir -p $D/build-aux
     cp -r /repo/src $D/src
     cp /repo/build-aux/yuck* $D/build-aux/ 2>/dev/null
-    (cd $D && patch -s -p1 < /verif/seeded/$P/patch.diff) || { echo "$P seed=$S patch does not apply"; return; }
+    (cd $D && patch -s -p1 < /verif/seeded/$D0/patch.diff) || { echo "$D0 seed=$S patch does not apply"; rm -rf $D; return; }
   fi
-  O=$T/out_${P}_$S; mkdir -p $O
+  O=$T/out_${D0}_$S; mkdir -p $O
   (cd /verif && ECHSE_REPO=$D VERIF_OUT=$O VERIF_SEED=$S python3 check.py $P > $O/log 2>&1); rc=$?
-  echo "$P seed=$S rc=$rc $(grep -m1 VIOLATION $O/log | cut -c1-200)"
+  echo "$D0 seed=$S rc=$rc $(grep -m1 '^# ' $O/log | cut -c1-230)"
 }
-for P in $(ls /verif/seeded); do
-  for S in $SEEDS; do one $P $S; done &
-  # four properties at a time
+for D0 in $DIRS; do
+  for S in $SEEDS; do one $D0 $S; done &
   while [ $(jobs -r | wc -l) -ge 4 ]; do sleep 2; done
 done
 wait
